@@ -11,7 +11,7 @@ from ..doubles import Model, Loss, Log, recording_storage_class, num
 
 LEVEL = 'exploration'
 RULE = ("Product: explainer class in {IncrementalPFI, IncrementalSage, BatchSage, IntervalSage} x {required arguments only, any subset "
-        "of optional arguments overridden} x feature-name types (all str / int / float / mixtures) x d in 1..5 x n_inner (constructor, "
+        "of optional arguments overridden} x feature-name types (all str / int / float / mixtures, given as list, tuple or range) x d in 1..5 x n_inner (constructor, "
         "per call) x per-call update_storage x stream prefixes; loss in {positional-only callable (def loss(y_true, y_pred, /)), a loss over (value, weight) TUPLE targets, river "
         "MSE/MAE}; model in {plain callable, RiverWrapper, bound method of a fitted sklearn LinearRegression (-> SklearnWrapper)}. "
         "Oracle over the shared event log of the doubles: construction succeeds; per explain_one on an incremental explainer: "
@@ -86,6 +86,12 @@ class TupleTargetLoss:
 def _mk_loss(kind, log):
     if kind == 'positional':
         return Loss({'kind': 'sq'}, 'float', log=log)
+    if kind == 'varargs':
+        inner = Loss({'kind': 'sq'}, 'float', log=log)
+
+        def loss(*args):           # e.g. a two-argument loss behind a generic decorator written without functools.wraps
+            return inner(*args)
+        return loss
     if kind == 'tuple_target':
         return TupleTargetLoss(log)
     from river import metrics
@@ -129,8 +135,9 @@ def run_incremental(case):
     random.seed(case['seeds'][0])
     np.random.seed(case['seeds'][1])
     cls = IncrementalPFI if case['cls'] == 'pfi' else IncrementalSage
+    names_arg = _container(names, case.get('names_container'))
     try:
-        ex = cls(model_fn, loss, names, **kwargs)
+        ex = cls(model_fn, loss, names_arg, **kwargs)
     except Exception as e:
         which = 'required-args-only' if not kwargs else 'with-' + '+'.join(sorted(kwargs))
         return Result(False, key=f"C15:{case['cls']}:construct:{type(e).__name__}",
@@ -165,7 +172,8 @@ def run_incremental(case):
         if n_model != want_model:
             return Result(False, key='C15:model-evaluations',
                           detail=f'call {t + 1}: {n_model} model evaluations, expected {want_model} (d={d}, n_inner={eff})')
-        if x != x_before or y != y_before or names != names_before or ex.feature_names != names_before:
+        if x != x_before or y != y_before or names != names_before or list(ex.feature_names) != names_before \
+                or list(names_arg) != names_before:
             return Result(False, key='C15:mutated-arguments', detail=f'call {t + 1}: x, y or the feature-name list was modified')
         if storage is not None:
             sev = [i for i, e in enumerate(evs) if e[0] == 'storage']
@@ -197,6 +205,15 @@ def run_incremental(case):
     return Result(True, nontrivial=nt, labels=labels)
 
 
+def _container(names, kind):
+    """The documented type is Sequence[...]: a list, a tuple, or (for names 0..d-1) a range."""
+    if kind == 'tuple':
+        return tuple(names)
+    if kind == 'range' and names == list(range(len(names))):
+        return range(len(names))
+    return names
+
+
 def run_batch(case):
     from ixai.explainer.sage import BatchSage, IntervalSage
     names = list(case['names'])
@@ -214,7 +231,7 @@ def run_batch(case):
         kwargs['storage_length'] = case['storage_length']
     cls = BatchSage if case['cls'] == 'batch' else IntervalSage
     try:
-        ex = cls(model, names, loss, **kwargs)
+        ex = cls(model, _container(names, case.get('names_container')), loss, **kwargs)
     except Exception as e:
         return Result(False, key=f"C15:{case['cls']}:construct:{type(e).__name__}", detail=f'{cls.__name__}(model, names, loss) raised {e!r}')
     for t, row in enumerate(case['stream']):
@@ -254,7 +271,7 @@ def inc_cases(draw):
     if model == 'sklearn_bound':
         loss = 'positional'
     else:
-        loss = draw(st.sampled_from(['positional', 'positional', 'river_mse', 'river_mae', 'tuple_target']))
+        loss = draw(st.sampled_from(['positional', 'positional', 'river_mse', 'river_mae', 'tuple_target', 'varargs']))
     spec = draw(cfgs.model_st(d, multi=False, allow_ignore=False))
     spec['outs'][0]['label'] = 'output'
     cls = draw(st.sampled_from(['pfi', 'sage']))
@@ -270,7 +287,10 @@ def inc_cases(draw):
     if model == 'sklearn_bound':
         # SklearnWrapper feeds np.asarray(list(x.values())): keep numeric values
         pass
-    return {'cls': cls, 'names': names, 'model': model, 'loss': loss, 'spec': spec, 'overrides': ov,
+    container = draw(st.sampled_from(['list', 'list', 'tuple', 'range']))
+    if container == 'range':
+        names = list(range(d))
+    return {'names_container': container, 'cls': cls, 'names': names, 'model': model, 'loss': loss, 'spec': spec, 'overrides': ov,
             'seeds': [draw(gen.seed32), draw(gen.seed32)], 'stream': stream}
 
 
@@ -281,7 +301,10 @@ def batch_cases(draw):
     spec = draw(cfgs.model_st(d, multi=False, allow_ignore=False))
     spec['outs'][0]['label'] = 'output'
     cls = draw(st.sampled_from(['batch', 'interval']))
-    case = {'cls': cls, 'names': names, 'spec': spec, 'loss': draw(st.sampled_from(['positional', 'positional', 'river_mse', 'tuple_target'])),
+    container = draw(st.sampled_from(['list', 'list', 'tuple', 'range']))
+    if container == 'range':
+        names = list(range(d))
+    case = {'names_container': container, 'cls': cls, 'names': names, 'spec': spec, 'loss': draw(st.sampled_from(['positional', 'positional', 'river_mse', 'tuple_target', 'varargs'])),
             'seeds': [draw(gen.seed32), draw(gen.seed32)], 'n_inner': draw(st.sampled_from([None, None, 1, 2])),
             'original': draw(st.booleans()), 'interval': draw(st.sampled_from([None, 1, 2, 3])),
             'storage_length': draw(st.integers(1, 4))}
